@@ -238,6 +238,29 @@ def tlc(ctx, module, cfg, mode="check", workers=None, timeout=900, files=None, e
     return r
 
 
+def apalache(ctx, module, args, timeout=600):
+    """Runs `apalache-mc check <args> <module>.tla` in a private copy of the spec directory.
+    Returns 'ok' (NoError), 'cex' (a counterexample to the invariant was found); anything else is Inconclusive."""
+    ctx.ntlc += 1
+    d = ctx.sub("apa%d" % ctx.ntlc)
+    shutil.copy(os.path.join(SPEC, module + ".tla"), d)
+    cmd = ["apalache-mc", "check", "--out-dir=" + os.path.join(d, "out")] + list(args) + [module + ".tla"]
+    env = dict(os.environ)
+    env.pop("JAVA_TOOL_OPTIONS", None)
+    t0 = time.time()
+    rc, out = run(cmd, cwd=d, timeout=timeout, env=env)
+    if rc == 124:
+        raise Inconclusive("apalache timed out on %s %s" % (module, " ".join(args)))
+    if "The outcome is: NoError" in out and rc == 0:
+        res = "ok"
+    elif "The outcome is: Error" in out and rc == 12:
+        res = "cex"
+    else:
+        raise Inconclusive("apalache failed on %s (rc=%s):\n%s" % (module, rc, out[-4000:]))
+    ctx.log("apalache %s %s: %s %.1fs" % (module, " ".join(args), res, time.time() - t0))
+    return res
+
+
 _PRINT = re.compile(r'^<<\s*"([A-Z]+)",\s*(.*?)\s*>>\s*$', re.S)
 
 
